@@ -26,6 +26,12 @@ theorem decodeRune_width (bs : Bytes) (h : bs ≠ []) :
     repeat' split
     all_goals (first | (simp; done) | (simp; omega) | omega)
 
+/-- Rune boundaries of the input: offsets reached from 0 by decoding one rune after the other
+(used by the stated-only `lexer_rune_boundaries_stmt`). -/
+inductive Bnd (inp : Bytes) : Int → Prop
+  | zero : Bnd inp 0
+  | step {p : Int} : Bnd inp p → 0 ≤ p → p < inp.length → Bnd inp (p + (decodeRune (inp.drop p.toNat)).2)
+
 /-- Everything the proofs need to know about one `l.next()` from an in-range cursor. -/
 structure NextOK (c : Ctx) (l : Lx) (r : Int) (l' : Lx) : Prop where
   start : l'.start = l.start
@@ -211,11 +217,6 @@ macro "branch" : tactic => `(tactic| (
   | (refine emitTo_ok _ (good_move ‹Good _ _› ?_ ?_ ?_ ?_ ?_) (fun _ => trivial) ?_ <;> fin)
   | (refine errorf_final (good_move ‹Good _ _› ?_ ?_ ?_ ?_ ?_) <;> fin)
   | (refine good_final (emit_good (good_move ‹Good _ _› ?_ ?_ ?_ ?_ ?_) _).1 <;> fin)))
-
-/-- facts about the first `next` of a step -/
-macro "nx1" : tactic => `(tactic| (
-  have := (‹Good _ _›).s0; have := (‹Good _ _›).sp; have := (‹Good _ _›).pl
-  obtain ⟨hs1, ht1, hr1, hp1, hw1, hl1, he1, ha1, hg1⟩ := next_ok _ _ (by omega : 0 ≤ (_ : Lx).pos) (‹Good _ _›).pl))
 
 theorem step_token (c : Ctx) (l : Lx) (hf : c.fixed = true) (hg : Good c l) :
     StepOK c l .token (step c l .token) := by
